@@ -75,7 +75,7 @@ func spoofUDP(r *Rng, uc *udpCase, ih []byte, p trkPeer, left uint64, event uint
 		if f.action == 1 {
 			copy(f.ipField, []net.IP{{10, 0, 0, 9}, {10, 0, 0, 1}, {0, 0, 0, 1}}[r.Intn(3)])
 		} else {
-			copy(f.ipField, []net.IP{net.ParseIP("2001:db8::9"), net.ParseIP("::ffff:10.0.0.8"), net.ParseIP("::1"), net.ParseIP("2001:db8::1")}[r.Intn(4)])
+			copy(f.ipField, []net.IP{net.ParseIP("2001:db8::9"), net.ParseIP("::ffff:10.0.0.8"), net.ParseIP("::1"), net.ParseIP("2001:db8::1"), net.ParseIP(nearMappedV6[0]), net.ParseIP(nearMappedV6[1])}[r.Intn(6)])
 		}
 	}
 	f.connID = validConnID(*uc, time.Duration(r.Intn(60))*time.Second)
@@ -125,6 +125,9 @@ func runTracker(c *Ctx, profile string) {
 		}
 		var peers []trkPeer
 		ips := []net.IP{{10, 0, 0, 1}, {10, 0, 0, 2}, {10, 0, 0, 3}, net.ParseIP("2001:db8::1"), net.ParseIP("2001:db8::2")}
+		if profile == "C03T" || profile == "C13" { // genuine IPv6 addresses that resemble IPv4-mapped ones
+			ips = append(ips, net.ParseIP(nearMappedV6[r.Intn(len(nearMappedV6))]), net.ParseIP(nearMappedV6[r.Intn(len(nearMappedV6))]))
+		}
 		for i := 0; i < 4+r.Intn(3); i++ {
 			peers = append(peers, trkPeer{id: r.Bytes(20), port: uint16(1000 + r.Intn(3)), ip: ips[r.Intn(len(ips))]})
 		}
@@ -177,7 +180,7 @@ func runTracker(c *Ctx, profile string) {
 						}
 					}
 					if r.Intn(2) == 0 {
-						other := []string{"10.0.0.9", "2001:db8::9", "::ffff:10.0.0.8", "::1", "0.0.0.0", "::"}[r.Intn(6)]
+						other := []string{"10.0.0.9", "2001:db8::9", "::ffff:10.0.0.8", "::1", "0.0.0.0", "::", nearMappedV6[0], nearMappedV6[2]}[r.Intn(8)]
 						hc.uri += "&" + []string{"ip", "ipv4", "ipv6"}[r.Intn(3)] + "=" + url.QueryEscape(other)
 					}
 				}
